@@ -290,6 +290,19 @@ def _prepTgForSaving(
     else:
         tg["xmax"] = maxTimestamp
 
+    # No entry may fall outside of the (possibly overridden) span of the textgrid
+    for tier in tg["tiers"]:
+        for entry in tier["entries"]:
+            entryStart, entryEnd = float(entry[0]), float(entry[-2])
+            if minTimestamp is not None and entryStart < float(minTimestamp):
+                raise errors.ParsingError(
+                    "The entries are shorter than the min time specified in the textgrid."
+                )
+            if maxTimestamp is not None and entryEnd > float(maxTimestamp):
+                raise errors.ParsingError(
+                    "The entries are longer than the max time specified in the textgrid."
+                )
+
     # Fill in the blank spaces for interval tiers
     if includeBlankSpaces:
         newTierList = []
